@@ -425,6 +425,11 @@ func genC05(r *sim.Rng, c *sim.Case, tier string, idx int) {
 				// the other one must still take over
 				giveUp := int64(hold) + r.I64n(int64(lease)+int64(lease)/2)
 				task.Ops = append(task.Ops, sim.Op{K: "lockctx", E: 1000 + giveUp, N: 1})
+			} else if nc == 1 && r.Chance(1, 3) {
+				// the only contender limits its attempt by a deadline far beyond the dead holder's
+				// lease: it must take over when the record expires, long before the deadline
+				c.Knobs["deadline_ctx"] = 1
+				task.Ops = append(task.Ops, sim.Op{K: "lockctx", E: 1000 + int64(hold) + int64(4*lease), N: 1, D: int64(sim.Pick(r, 0, lease/2))})
 			} else {
 				task.Ops = append(task.Ops, sim.Op{K: "lockctx", E: -1, N: 1, D: int64(sim.Pick(r, 0, lease/2))})
 			}
